@@ -15,6 +15,7 @@ From Eino Require Import Base.Util Model.Graph Model.Chain Model.ChainSpec Model
   Proofs.PregelBase Proofs.Pregel Proofs.PregelRun Proofs.PregelNest Proofs.PregelTop
   Proofs.PregelChainLower Proofs.PregelChain Proofs.PregelOrder Proofs.PregelChainCompile Proofs.PregelOpts Proofs.PregelHyps Proofs.PregelStream.
 From Eino Require Model.ImpGenLib Model.CalcBranchSpec Model.ChainGenLib Model.ChainLowerSpec Model.ChainLowerInst Proofs.CalcBranchModel Proofs.ChainLowerModel Proofs.ChainLowerReject.
+From Eino Require Model.ResolveGenLib Model.ResolveSpec Proofs.ResolveModel Model.NextSpec Proofs.C01NextModel.
 Open Scope N_scope.
 
 (* ---------- default step limit = number of nodes + 10 (graph.compile) ---------- *)
@@ -663,4 +664,110 @@ Example ex_calculate_branch_code :
                               {| b_ends := [4;6]; b_nodata := false; b_table := [[4]] |} ] |} in
   eval_branches value tree_ops n (VAtom 7) = Ok ([3;4;4], [5])
   /\ Proofs.CalcBranchModel.spec_skipped value tree_ops n (VAtom 7) = [5].
+Proof. split; vm_compute; reflexivity. Qed.
+
+(* ---------- the code of runner.resolveCompletedTasks and uniqueKeys, as functions (round 5) ----------
+   Model/ResolveSpec.v states compose/graph_run.go:resolveCompletedTasks as a function of the completed tasks and of
+   the code it calls (copyItem, calculateBranch); tools/go2v (extractor "resolvetasks") regenerates it from the source
+   on every run and Proofs/GenAgreeC01Resolve.v (proof obligation of this property) proves the regenerated function equal
+   to it (gen_resolveCompletedTasks_agrees) and, composed with the regenerated calculateBranch, equal to the right-hand
+   side below (gen_resolve_is_resolve_all).
+   For the completed tasks of a superstep of an any-predecessor graph (each given by its node and its output): the Go
+   function fails exactly when [resolve_all] of the engine model does, leaves the channels as it does, and the two
+   maps it returns are the model's writes (target, (sender, value)) and dependencies (target, sender) grouped by
+   target through the insertions the Go code performs. Hence every receiver (the selected nodes and the plain
+   successors, once each) is handed exactly the task's output: the copy counts, slice bounds and indices of the Go
+   code never read beyond the copies (the model would show the zero value), whatever the numbers of successors,
+   branches and selected nodes. copyItem v n = max(1, n) copies of v ([copies]) is what the regenerated copyItem does
+   where no value is a stream reader (gen_copyItem_agrees); field mappings do not exist in any-predecessor graphs
+   (n_dmap = []). *)
+Theorem resolve_code_is_engine :
+  forall (V : Type) (ops : vops V) ec g (tasks : list (node * V)) isStream cs,
+    g_mode g = Pregel ->
+    (forall t, In t tasks -> n_dmap (fst t) = [] /\ find_node g (n_key (fst t)) = Some (fst t)) ->
+    Proofs.ResolveModel.spec_on_nodes V ops ec g tasks isStream cs
+    = do r <- resolve_all V ops g (map (fun t => (n_key (fst t), snd t)) tasks) cs;
+      let '(cs', ws, ds) := r in
+      Ok (Proofs.ResolveModel.wmap_of V ws, Proofs.ResolveModel.dmap_of ds, cs').
+Proof. exact Proofs.ResolveModel.spec_resolve_is_resolve_all. Qed.
+Print Assumptions resolve_code_is_engine.
+
+(* uniqueKeys: writing one value under the receivers made unique is writing it under the receivers as they come
+   (a successor selected by several branches, or by a branch and a plain edge, is written once, the same value) *)
+Theorem unique_receivers_write_once :
+  forall (V : Type) (d : V) (s : key) (v : V) (l : list key) (w : Model.ResolveGenLib.wmap V),
+    fold_left (fun w t => Model.ResolveSpec.wm_put t s v w) (Model.ResolveSpec.unique_keys l) w
+    = fold_left (fun w t => Model.ResolveSpec.wm_put t s v w) l w.
+Proof. exact (fun V d s v l w => Proofs.ResolveModel.put_unique_keys V d s v l w). Qed.
+Print Assumptions unique_receivers_write_once.
+
+(* non-vacuity: a node with plain successors 3 and 5 and a branch over {3,4} selecting both: receivers 3, 4, 5 get
+   the output once each under the sender's key; dependencies: the control successor 3 and the selected 3, 4 *)
+Example ex_resolve_code :
+  let n := {| n_key := 2; n_kind := KLambda; n_outkey := None; n_dsucc := [3; 5]; n_csucc := [3]; n_dmap := [];
+              n_branches := [ {| b_ends := [3;4]; b_nodata := false; b_table := [[3;4]] |} ] |} in
+  let g := {| g_nodes := [n]; g_mode := Pregel; g_eager := false; g_max := 0 |} in
+  g_mode g = Pregel /\ n_dmap n = [] /\ find_node g 2 = Some n
+  /\ Proofs.ResolveModel.spec_on_nodes value tree_ops (fun _ => 0) g [(n, VAtom 7)] false []
+     = Ok ([(3, [(2, VAtom 7)]); (4, [(2, VAtom 7)]); (5, [(2, VAtom 7)])], [(3, [2; 2]); (4, [2])], []).
+Proof. cbv zeta. repeat split; vm_compute; reflexivity. Qed.
+
+(* ---------- the code of runner.calculateNextTasks and createTasks, as functions (round 5) ----------
+   Model/NextSpec.v states them as functions of the completed tasks and of the code they call; tools/go2v (extractor
+   "nexttasks") regenerates them from the source on every run and Proofs/GenAgreeC01Next.v (proof obligation of this
+   property) proves the regenerated functions equal to them and, over the regenerated resolveCompletedTasks, copyItem and
+   calculateBranch, equal to the right-hand side below (next_is_calc_next).
+   With cm.updateAndGet doing on the grouped maps what update_chans + get_all do on the lists these tasks give rise to
+   (hypothesis uag_is_model: graph_manager.go is not translated; the channel operations it calls are tied by the chancode
+   extractor; satisfiable for every run, see ex_next_tasks_ready and ex_gen_next of Proofs/GenAgreeC01Next.v, which
+   evaluates the un-grouping instance),
+   calculateNextTasks IS calc_next followed by the END test of step: "the run returns the merged value delivered to
+   END in the first step in which END receives one" - when END is among the ready nodes the result is the value END's
+   channel handed out and NO task is created for the other ready nodes; otherwise the next tasks are made from the
+   ready nodes, one each, on the value its channel handed out (next_tasks_are_ready). *)
+Theorem next_tasks_code_is_engine :
+  forall (V : Type) (ops : vops V) ec g zero_node subscribe uag (tasks : list (node * V)) isStream cs,
+    g_mode g = Pregel ->
+    (forall t, In t tasks -> n_dmap (fst t) = [] /\ find_node g (n_key (fst t)) = Some (fst t)) ->
+    Proofs.C01NextModel.uag_is_model V ops g uag tasks cs ->
+    Proofs.C01NextModel.spec_next_on_nodes V ops ec g zero_node subscribe uag tasks isStream cs
+    = do r <- calc_next V ops g cs (map (fun t => (n_key (fst t), snd t)) tasks);
+      let '(cs', ready) := r in
+      match alookup kEND ready with
+      | Some v => Ok ([], v, true, cs')
+      | None => do ts <- Model.NextSpec.create_tasks V (key * V) node zero_node ec subscribe (fun k _ v => (k, v)) ready;
+                Ok (ts, v_zero ops, false, cs')
+      end.
+Proof. exact Proofs.C01NextModel.spec_next_is_calc_next. Qed.
+Print Assumptions next_tasks_code_is_engine.
+
+Theorem next_tasks_are_the_ready_nodes :
+  forall (V : Type) ec zero_node (subscribe : list (key * node)) (ready : list (key * V)),
+    forallb (fun kv => Model.ResolveGenLib.am_has (fst kv) subscribe) ready = true ->
+    Model.NextSpec.create_tasks V (key * V) node zero_node ec subscribe (fun k _ v => (k, v)) ready = Ok ready.
+Proof. exact (fun V ec z sub ready => Proofs.C01NextModel.next_tasks_are_ready V ec z sub ready). Qed.
+Print Assumptions next_tasks_are_the_ready_nodes.
+
+(* non-vacuity: the hypothesis uag_is_model holds for the function that answers with the model's right-hand side on
+   the lists of the run (any tasks, any channels); a ready node with / without a chanCall *)
+Example ex_uag_is_model :
+  forall (V : Type) (ops : vops V) g tasks cs,
+    exists uag, Proofs.C01NextModel.uag_is_model V ops g uag tasks cs.
+Proof.
+  intros V ops g tasks cs.
+  destruct (resolve_all V ops g (map (fun t => (n_key (fst t), snd t)) tasks) cs) as [[[cs1 ws] ds]|e0|] eqn:E.
+  - exists (fun _ _ _ => do cs2 <- update_chans V g ws ds cs1; do r <- get_all V ops g cs2; Ok (snd r, fst r)).
+    intros cs1' ws' ds' H. rewrite E in H. inversion H; subst. reflexivity.
+  - exists (fun _ _ _ => Err e0). intros cs1' ws' ds' H. rewrite E in H. discriminate H.
+  - exists (fun _ _ _ => Panic). intros cs1' ws' ds' H. rewrite E in H. discriminate H.
+Qed.
+
+Example ex_next_tasks_ready :
+  Model.NextSpec.create_tasks value (key * value) node
+    {| n_key := 0; n_kind := KLambda; n_outkey := None; n_dsucc := []; n_csucc := []; n_dmap := []; n_branches := [] |}
+    (fun _ => 0) [(3, {| n_key := 3; n_kind := KLambda; n_outkey := None; n_dsucc := []; n_csucc := []; n_dmap := []; n_branches := [] |})]
+    (fun k _ v => (k, v)) [(3, VAtom 7)] = Ok [(3, VAtom 7)]
+  /\ Model.NextSpec.create_tasks value (key * value) node
+    {| n_key := 0; n_kind := KLambda; n_outkey := None; n_dsucc := []; n_csucc := []; n_dmap := []; n_branches := [] |}
+    (fun _ => 0) [] (fun k _ v => (k, v)) [(3, VAtom 7)] = Err 0.
 Proof. split; vm_compute; reflexivity. Qed.
